@@ -89,6 +89,98 @@ example : envsAfter rcEnvCopied = [[("GLOBAL", "g"), ("SHARED", "from_alpha"), (
 example : envsAfter false = List.replicate 3 [("GLOBAL", "g"), ("SHARED", "from_gamma"), ("ONLY_ALPHA", "1"), ("ONLY_GAMMA", "1")] := by decide
 
 
+/-! ### `%(ENV_X)s` with X from the [supervisord] environment: every section sees it, with the file's value -/
+
+/-- the generated facts: the parser expands with the options' own dictionary, and both families of sections are parsed
+    after the [supervisord] environment was added to it -/
+theorem parser_shares_environ : rcParserSharesEnviron = true := by decide
+theorem groups_parsed_after_env_merge : rcGroupsAfterEnvMerge = true := by decide
+theorem servers_parsed_after_env_merge : rcServersAfterEnvMerge = true := by decide
+
+theorem string_append_left_cancel (p a b : String) (h : p ++ a = p ++ b) : a = b := by
+  have h2 : (p ++ a).toList = (p ++ b).toList := by rw [h]
+  simp only [String.toList_append] at h2
+  exact String.ext (List.append_cancel_left h2)
+
+/-- the ENV_ expansions after the [supervisord] environment was added: a variable the section defines denotes ITS value
+    (the last one written, as in a Python dict), whatever the inherited process environment says; every other ENV_ name
+    keeps the inherited value -/
+theorem envExps_lookup_env (E : Exps) (env : KV) (k : String) :
+    (envExps E env).lookup ("ENV_" ++ k) = ((env.reverse.lookup k).map Val.s <|> E.lookup ("ENV_" ++ k)) := by
+  unfold envExps
+  induction env generalizing E with
+  | nil => simp
+  | cons hd tl ih =>
+    obtain ⟨a, b⟩ := hd
+    simp only [List.foldl_cons, List.reverse_cons]
+    rw [ih, lookup_dset, lookup_append']
+    by_cases hk : k = a
+    · subst hk
+      cases h : (List.lookup k tl.reverse) <;> simp [lookup_cons']
+    · have hne : ¬ ("ENV_" ++ k = "ENV_" ++ a) := fun e => hk (string_append_left_cancel _ _ _ e)
+      cases h : (List.lookup k tl.reverse) <;> simp [lookup_cons', hk, hne]
+
+/-- **sections_see_supervisord_environment.**  The dictionary the program, group, eventlistener and fcgi-program sections
+    are read with — `parser.expansions` for the once-per-section options (numprocs, priority, autostart, exitcodes, user,
+    umask, serverurl, programs, events, buffer_size, …) as well as `self.environ_expansions` for the per-process ones —
+    and the dictionary the [unix_http_server] / [inet_http_server] sections are read with are the inherited ENV_
+    expansions overlaid with the [supervisord] environment.  GENERATED FACTS USED: `parser.expansions` is
+    `self.environ_expansions` itself, not a snapshot; both families are parsed after the overlay. -/
+theorem sections_see_supervisord_environment (ini : Ini) (supEnv : KV) :
+    (readCtx ini supEnv).penv = envExps (strVals ini.environ) supEnv ∧
+    (readCtx ini supEnv).senv = envExps (strVals ini.environ) supEnv ∧
+    serverExps ini supEnv = envExps (strVals ini.environ) supEnv := by
+  simp [readCtx, serverExps, parserExps, environAt, parser_shares_environ, groups_parsed_after_env_merge,
+        servers_parsed_after_env_merge]
+
+/-- … so `%(ENV_X)s` of a variable X that `[supervisord] environment=` defines stands for the value written there in
+    every section kind, also when the process environment of supervisord has another value for X or none at all -/
+theorem env_var_of_supervisord_environment (ini : Ini) (supEnv : KV) (x v : String) (h : supEnv.reverse.lookup x = some v) :
+    (readCtx ini supEnv).penv.lookup ("ENV_" ++ x) = some (.s v) ∧
+    (readCtx ini supEnv).senv.lookup ("ENV_" ++ x) = some (.s v) ∧
+    (serverExps ini supEnv).lookup ("ENV_" ++ x) = some (.s v) := by
+  obtain ⟨h1, h2, h3⟩ := sections_see_supervisord_environment ini supEnv
+  rw [h1, h2, h3, envExps_lookup_env, h]
+  simp
+
+/-- `read_config` parses the groups in that context -/
+theorem read_config_context (ini : Ini) (r : Result) (h : readConfig ini = .ok r) :
+    ∃ gs, processGroupsFromParser (readCtx ini r.sup.environment) ini = .ok gs ∧
+          r.groups = gs.map (mergeGroupEnv r.sup.environment) := by
+  simp only [readConfig, bind, Except.bind, pure, Except.pure] at h
+  repeat (split at h <;> try contradiction)
+  injection h with h
+  subst h
+  simp only [envAfterLoop, env_loop_copies, if_true]
+  exact ⟨_, ‹_›, List.map_congr_left fun g _ => mergeGroupEnvBy_eq _ _ g⟩
+
+/-- **written_value_is_converted.**  No lookup replaces a present-but-empty value by another text before converting it
+    (`get(...) or '<text>'` does not occur): what a section writes — including nothing, e.g. `exitcodes=` = no expected
+    exit status — is what the documented converter is given. -/
+theorem written_value_is_converted (scope opt : String) (r : Raw) : orFallback optEmptyFallback scope opt r = r := by
+  simp [orFallback, optEmptyFallback]
+
+theorem empty_exitcodes_is_no_exitcode : listOfExitcodes (.str "") = .ok [] := by decide
+
+-- a variable defined ONLY by [supervisord] environment= (the inherited ENV_ expansions have another N) in once-per-section
+-- options (numprocs, priority) and a per-process one (command): two processes, the file's value everywhere
+def exIniEnv : Ini := { sections := [⟨"supervisord", [("environment", "N=\"2\",PRIO=\"7\"")]⟩,
+                                     ⟨"program:w", [("command", "w %(ENV_N)s"), ("numprocs", "%(ENV_N)s"), ("priority", "%(ENV_PRIO)s"),
+                                                    ("process_name", "w%(process_num)d"), ("exitcodes", "")]⟩],
+                        environ := [("ENV_N", "40")], here := "/etc", hostNode := "box", dirs := [], users := [], handlers := [] }
+
+example : (match readConfig exIniEnv with
+           | .ok r => r.groups.map fun g => (g.name, g.priority, g.procs.map fun p => (p.name, p.command, p.exitcodes))
+           | .error _ => [])
+    = [("w", 7, [("w0", "w 2", []), ("w1", "w 2", [])])] := by decide +kernel
+
+-- what a snapshot of the inherited expansions (`parser.expansions = self.environ_expansions.copy()`) or parsing before the
+-- overlay would give the parser: the inherited value, or none
+example : (parserExps false true [("ENV_N", .s "40")] (envExps [("ENV_N", .s "40")] [("N", "2")])).lookup "ENV_N" = some (.s "40") := by decide
+example : (parserExps true false [] (envExps [] [("N", "2")])).lookup "ENV_N" = none := by decide
+example : (parserExps true true [("ENV_N", .s "40")] (envExps [("ENV_N", .s "40")] [("N", "2")])).lookup "ENV_N" = some (.s "2") := by decide
+
+
 /-! ### included files -/
 
 /-- a section in which no `%(here)s` is left -/
